@@ -49,7 +49,8 @@ GETTEXT_FUNCTIONS: tuple[str, ...] = (
     "pgettext",
     "npgettext",
 )
-_ws_re = re.compile(r"\s*\n\s*")
+# a line break is whatever newline_sequence the lexer normalized it to
+_ws_re = re.compile(r"\s*(?:\r\n|\r|\n)\s*")
 
 
 class Extension:
